@@ -1,4 +1,4 @@
-package edi
+package omniv21
 
 import (
 	"errors"
